@@ -1714,139 +1714,11 @@ impl<'a> Parser<'a> {
     }
 
     /// Parse ambient class declaration: declare class Name { ... }
+    /// It has the syntax of a class whose methods have no bodies, and declares nothing.
     fn parse_ambient_class_declaration(&mut self) -> Result<(), JsError> {
         // Skip abstract if present
         self.match_token(&TokenKind::Abstract);
-        self.require_token(&TokenKind::Class)?;
-
-        // Class name
-        self.parse_identifier()?;
-
-        // Optional type parameters
-        self.parse_optional_type_parameters()?;
-
-        // Optional extends
-        if self.match_token(&TokenKind::Extends) {
-            self.parse_type_reference()?;
-        }
-
-        // Optional implements
-        if self.match_token(&TokenKind::Implements) {
-            self.parse_type_reference()?;
-            while self.match_token(&TokenKind::Comma) {
-                self.parse_type_reference()?;
-            }
-        }
-
-        // Class body - skip everything inside braces
-        self.require_token(&TokenKind::LBrace)?;
-        self.skip_ambient_class_body()?;
-        self.require_token(&TokenKind::RBrace)?;
-
-        Ok(())
-    }
-
-    /// Check if current token can be used as a property/method name in ambient declarations.
-    /// This includes identifiers and contextual keywords that can be used as property names.
-    fn check_ambient_member_name(&self) -> bool {
-        matches!(
-            self.current.kind,
-            TokenKind::Identifier(_)
-                | TokenKind::String(_)
-                | TokenKind::Number(_)
-                // Contextual keywords that can be property names
-                | TokenKind::From
-                | TokenKind::As
-                | TokenKind::Type
-                | TokenKind::Of
-                | TokenKind::Async
-                | TokenKind::Await
-                | TokenKind::Yield
-                | TokenKind::Static
-                | TokenKind::Readonly
-                | TokenKind::Abstract
-                | TokenKind::Public
-                | TokenKind::Private
-                | TokenKind::Protected
-                | TokenKind::Module
-                | TokenKind::Namespace
-                | TokenKind::Interface
-                | TokenKind::Enum
-                | TokenKind::Declare
-                | TokenKind::Export
-                | TokenKind::Default
-                | TokenKind::Infer
-        )
-    }
-
-    /// Skip ambient class body members
-    fn skip_ambient_class_body(&mut self) -> Result<(), JsError> {
-        while !self.check(&TokenKind::RBrace) && !self.is_at_end() {
-            // Skip modifiers: public, private, protected, static, readonly, abstract
-            while matches!(
-                &self.current.kind,
-                TokenKind::Public
-                    | TokenKind::Private
-                    | TokenKind::Protected
-                    | TokenKind::Static
-                    | TokenKind::Readonly
-                    | TokenKind::Abstract
-            ) {
-                self.advance();
-            }
-
-            // Handle constructor signature
-            if self.check_keyword("constructor") {
-                self.advance();
-                self.parse_function_params()?;
-                self.expect_semicolon()?;
-                continue;
-            }
-
-            // Skip member name (could be identifier, string, computed, or contextual keyword)
-            if self.check(&TokenKind::LBracket) {
-                // Computed property name
-                self.advance();
-                self.parse_expression()?;
-                self.require_token(&TokenKind::RBracket)?;
-            } else if self.check_ambient_member_name() {
-                self.advance();
-            } else if self.match_token(&TokenKind::New) {
-                // Constructor type signature (new (): Type)
-                if self.check(&TokenKind::LParen) || self.check(&TokenKind::Lt) {
-                    self.parse_optional_type_parameters()?;
-                    self.parse_function_params()?;
-                    if self.match_token(&TokenKind::Colon) {
-                        self.parse_type_annotation()?;
-                    }
-                    self.expect_semicolon()?;
-                }
-                continue;
-            } else {
-                // Unknown member, try to skip to next semicolon or break
-                break;
-            }
-
-            // Optional question mark for optional members
-            self.match_token(&TokenKind::Question);
-
-            // Check for method signature vs property
-            if self.check(&TokenKind::LParen) || self.check(&TokenKind::Lt) {
-                // Method signature (parse_function_params handles parens)
-                self.parse_optional_type_parameters()?;
-                self.parse_function_params()?;
-            }
-
-            // Optional type annotation
-            if self.match_token(&TokenKind::Colon) {
-                self.parse_type_annotation()?;
-            }
-
-            // Skip semicolon or comma
-            if !self.match_token(&TokenKind::Semicolon) {
-                self.match_token(&TokenKind::Comma);
-            }
-        }
+        self.parse_class_declaration()?;
         Ok(())
     }
 
